@@ -309,19 +309,31 @@ def check_hard_break_decorator(ctx: Ctx) -> None:
     def value_leaf(cur: FuncInfo, e: ast.AST, aliases: frozenset):
         return "SEG" if isinstance(e, ast.Call) and is_base_call(e) else None
 
+    def sep_of(e: ast.AST) -> str | None:
+        """the separator: a string literal, or a module-level constant holding one"""
+        if isinstance(e, ast.Constant) and isinstance(e.value, str):
+            return e.value
+        if isinstance(e, (ast.Name, ast.Attribute)):
+            from ..loader import ConstInfo as _CI
+
+            r_ = repo.resolve_expr(e, w.module, w)
+            if isinstance(r_, _CI) and isinstance(r_.value, ast.Constant) and isinstance(r_.value.value, str):
+                return r_.value.value
+        return None
+
     # the multi-segment result: SEP.join(parts)
     joins = [(r, r.ast.value) for r in flow.cfg.returns() if isinstance(r.ast.value, ast.Call) and isinstance(r.ast.value.func, ast.Attribute)
-             and r.ast.value.func.attr == "join" and isinstance(r.ast.value.func.value, ast.Constant) and len(r.ast.value.args) == 1]
+             and r.ast.value.func.attr == "join" and sep_of(r.ast.value.func.value) is not None and len(r.ast.value.args) == 1]
     if not joins:
         # single-exit style: result = SEP.join(parts) ... return result
         returned = {x.id for r in flow.cfg.returns() if r.ast.value is not None for x in ast.walk(r.ast.value) if isinstance(x, ast.Name)}
         joins = [(n, n.ast.value) for n in flow.cfg.nodes if n.kind == "stmt" and isinstance(n.ast, ast.Assign) and len(n.ast.targets) == 1
                  and isinstance(n.ast.targets[0], ast.Name) and n.ast.targets[0].id in returned and isinstance(n.ast.value, ast.Call)
-                 and isinstance(n.ast.value.func, ast.Attribute) and n.ast.value.func.attr == "join" and isinstance(n.ast.value.func.value, ast.Constant)
+                 and isinstance(n.ast.value.func, ast.Attribute) and n.ast.value.func.attr == "join" and sep_of(n.ast.value.func.value) is not None
                  and len(n.ast.value.args) == 1]
     ctx.require("R-HARDBREAK", "join of the wrapped segments in the hard-break decorator", len(joins), 1)
     for r, jc in joins:
-        sep = jc.func.value.value
+        sep = sep_of(jc.func.value)
         parts_e = expand_expr(prog, w, jc.args[0], r, strict=False)
         if isinstance(parts_e, ast.Name):
             pdefs = flow.reaching(r, parts_e.id)
@@ -591,8 +603,22 @@ def check_split_frontmatter(ctx: Ctx) -> None:
             bad.append((op, f"{op.text} rewrites the text"))
         elif op.kind == "call" and op.name == "join":
             joins.append(op)
+    def line_terminating_join(c: ast.AST) -> ast.AST | None:
+        """the iterable S of `"".join(line + "\n" for line in S)`: every line followed by its newline - the join with "\n" plus the
+        final newline, written element-wise"""
+        if isinstance(c, ast.Call) and isinstance(c.func, ast.Attribute) and c.func.attr == "join" and isinstance(c.func.value, ast.Constant) \
+                and c.func.value.value == "" and len(c.args) == 1 and isinstance(c.args[0], (ast.GeneratorExp, ast.ListComp)):
+            g = c.args[0]
+            if len(g.generators) == 1 and not g.generators[0].ifs and isinstance(g.generators[0].target, ast.Name) and isinstance(g.elt, ast.BinOp) \
+                    and isinstance(g.elt.op, ast.Add) and isinstance(g.elt.left, ast.Name) and g.elt.left.id == g.generators[0].target.id \
+                    and isinstance(g.elt.right, ast.Constant) and g.elt.right.value == "\n":
+                return g.generators[0].iter
+        return None
+
     for j in joins:
         sep = j.node.func.value if isinstance(j.node, ast.Call) and isinstance(j.node.func, ast.Attribute) else None
+        if line_terminating_join(j.node) is not None:
+            continue
         if not (isinstance(sep, ast.Constant) and sep.value == "\n"):
             bad.append((j, "lines must be rejoined with '\\n'"))
     ctx.note("split_frontmatter_ops", [o.text for o in tn.ops])
@@ -619,6 +645,9 @@ def check_split_frontmatter(ctx: Ctx) -> None:
                 e, nd = defs[0].value, defs[0].node
         # "\n".join(<slice of lines>) + "\n"
         core = e.left if isinstance(e, ast.BinOp) and isinstance(e.op, ast.Add) and isinstance(e.right, ast.Constant) and e.right.value == "\n" else e
+        lt = line_terminating_join(core)
+        if lt is not None:
+            core = ast.Call(func=ast.Attribute(value=ast.Constant(value="\n"), attr="join", ctx=ast.Load()), args=[lt], keywords=[])
         ok = isinstance(core, ast.Subscript) and isinstance(core.slice, ast.Slice) and isinstance(core.value, ast.Name) and core.value.id == p
         if isinstance(core, ast.Call) and isinstance(core.func, ast.Attribute) and core.func.attr == "join" and core.args:
             a = core.args[0]
